@@ -568,8 +568,10 @@ impl Property for C43b {
         ]
     }
     fn known_signature(&self, case: &Case) -> Option<String> {
-        match evaluate_cached(case) {
-            Eval::Finding(f) => Some(f.class),
+        // the engine calls this outside its panic guard: a panic here (from the code under test or
+        // from the harness) must surface through `run`, where it is classified, not kill the process
+        match std::panic::catch_unwind(std::panic::AssertUnwindSafe(|| evaluate_cached(case))) {
+            Ok(Eval::Finding(f)) => Some(f.class),
             _ => None,
         }
     }
